@@ -65,3 +65,19 @@ Theorem C03_jump_reaches_traffic_routing_only_between_equal_replicas : forall sp
   (RolloutSM.su_state u' = RolloutSM.StTraffic \/ RolloutSM.su_state u' = RolloutSM.StInit).
 Proof. exact Proofs.RolloutTR.jump_routes_only_between_equal_replicas. Qed.
 Print Assumptions C03_jump_reaches_traffic_routing_only_between_equal_replicas.
+
+(* blue-green releases: one reconcile brings a step from Init / Upgrade to its traffic-routing state only when the
+   BatchRelease reports this step's batch Ready for exactly this step's plan (Verifying or Upgrading do not count) *)
+From RV Require Model.RolloutBG Proofs.RolloutBG.
+Theorem C03_bluegreen_traffic_step_only_behind_ready_pods : forall sp st w br m u x y,
+  RolloutBG.reconcile_bg sp st w br = RolloutSM.ROut m ->
+  RolloutSM.rp_phase st = RolloutSM.RpProgressing -> RolloutSM.rs_deleting sp = false ->
+  RolloutSM.rp_prog st = Some (RolloutSM.PrInRolling, x, y) -> RolloutSM.rp_sub st = Some u ->
+  (RolloutSM.su_next u = RolloutSM.next_index (RolloutSM.nsteps sp) (RolloutSM.su_idx u) \/ RolloutSM.su_next u <= 0) ->
+  (sempty (RolloutSM.su_hash u) = true \/ RolloutSM.su_hash u = RolloutSM.rs_hash sp) ->
+  RolloutSM.wl_canary w = RolloutSM.su_canary_rev u ->
+  forall s' v, RolloutSM.o_status m = Some s' -> RolloutSM.rp_sub s' = Some v ->
+  (RolloutSM.su_state u = RolloutSM.StInit \/ RolloutSM.su_state u = RolloutSM.StUpgrade) -> RolloutSM.su_state v = RolloutSM.StTraffic ->
+  RolloutSM.br_ready_for sp (RolloutSM.observed_sub w u) w (RolloutSM.synced_br (RolloutSM.observed_sub w u) br) = true.
+Proof. exact Proofs.RolloutBG.bg_traffic_only_behind_ready_pods. Qed.
+Print Assumptions C03_bluegreen_traffic_step_only_behind_ready_pods.
